@@ -284,17 +284,21 @@ def truth(e, c):
 
 
 def dist_allows(s, c):
-    """hard part of a dist statement: the value lies in an entry whose weight is non-zero"""
+    """hard part of a dist statement: the value lies in an entry whose weight is non-zero and in no entry whose weight
+    is zero (zero-weight entries are never produced: listed inside a weighted range they carve their values out of it)"""
     tgt = s[1]
+    ok = False
     for item, wt in s[2]:
-        if ev(wt, c)[0] == 0:
-            continue
         if item[0] == "rng":
-            if truth(["bin", ">=", tgt, item[1]], c) and truth(["bin", "<=", tgt, item[2]], c):
-                return True
-        elif truth(["bin", "==", tgt, item], c):
-            return True
-    return False
+            inside = truth(["bin", ">=", tgt, item[1]], c) and truth(["bin", "<=", tgt, item[2]], c)
+        else:
+            inside = truth(["bin", "==", tgt, item], c)
+        if not inside:
+            continue
+        if ev(wt, c)[0] == 0:
+            return False
+        ok = True
+    return ok
 
 
 def holds(s, c):
